@@ -92,6 +92,8 @@ type Msg struct {
 	Inner  []Msg    `json:"inner,omitempty"`
 	Params any      `json:"params,omitempty"`
 	URL    string   `json:"url,omitempty"` // authz grant msg type
+	// Up: the addresses in the message are spelled in upper case (a legal bech32 spelling of the same accounts)
+	Up bool `json:"up,omitempty"`
 }
 
 func (m Msg) AmtI() *big.Int {
@@ -677,6 +679,17 @@ func (s *State) anch(kind string) *Anchor {
 }
 
 func (s *State) anchReg(m Msg) string {
+	// size and presence rules of the registration fields, in bytes (moniker 1..64, name <= 128 - for a
+	// BEACON also non-empty -, genesis hash <= 66)
+	if n := len(m.str(0)); n == 0 || n > 64 {
+		return "invalid_field"
+	}
+	if len(m.str(1)) > 128 || (m.Kind == BcnReg && len(m.str(1)) == 0) {
+		return "invalid_field"
+	}
+	if m.Kind == WrkReg && len(m.str(2)) > 66 {
+		return "invalid_field"
+	}
 	a := s.anch(m.Kind)
 	id := a.NextID
 	a.NextID++
@@ -689,6 +702,16 @@ func (s *State) anchReg(m Msg) string {
 }
 
 func (s *State) anchRec(m Msg) string {
+	// size and presence rules of the recorded fields (every hash <= 66 bytes, the first one non-empty; height
+	// and submit time positive)
+	for i, h := range m.S {
+		if len(h) > 66 || (i == 0 && len(h) == 0) {
+			return "invalid_field"
+		}
+	}
+	if len(m.S) == 0 || (m.Kind == WrkRec && m.H == 0) || (m.Kind == BcnRec && m.T == 0) || m.ID == 0 {
+		return "invalid_field"
+	}
 	a := s.anch(m.Kind)
 	e, ok := a.Ents[m.ID]
 	if !ok {
